@@ -378,3 +378,61 @@ func TestVerifC16Stall(t *testing.T) {
 	}
 	out.Emit(map[string]interface{}{"kind": "stall", "answered": answered, "what": "Tgetattr on another fid of the connection while the backend holds Tclunk's Close"})
 }
+
+// TestVerifC16RenameDisconnect: a rename inside one directory while the only other reference to
+// the renamed entry (a fid of another connection) goes away with its connection.  The rename
+// must be answered (no re-locking of the directory's childMu under renameMu.W).
+func TestVerifC16RenameDisconnect(t *testing.T) {
+	out := vhOpen(t)
+	defer out.Close()
+	fs := vhgNewFS()
+	vh16Seed(fs, 1)
+	env, err := vhgStart(fs, 2)
+	if err != nil {
+		t.Fatal(err)
+	}
+	r0, err := env.clients[0].Attach("")
+	if err != nil {
+		t.Fatal(err)
+	}
+	r1, err := env.clients[1].Attach("")
+	if err != nil {
+		t.Fatal(err)
+	}
+	_, dir, err := r0.Walk([]string{"c0"})
+	if err != nil {
+		t.Fatal(err)
+	}
+	if _, _, err := r1.Walk([]string{"c0", "a"}); err != nil { // the fid that will vanish with connection 1
+		t.Fatal(err)
+	}
+	g := fs.arm("Renamed", "/c0/a", 0)
+	done := make(chan struct{})
+	go func() { dir.RenameAt("a", dir, "z"); close(done) }()
+	answered, reached := false, false
+	select {
+	case <-g.reached:
+		reached = true
+	case <-done:
+		answered = true
+	case <-time.After(10 * time.Second):
+	}
+	if reached {
+		env.conns[1].Close() // connection 1 goes away: stop() drops its fids
+		select {
+		case <-env.done[1]:
+		case <-time.After(10 * time.Second):
+		}
+		close(g.release)
+		select {
+		case <-done:
+			answered = true
+		case <-time.After(3300 * time.Millisecond): // 3 x 1.1 s
+		}
+	}
+	out.Emit(map[string]interface{}{"kind": "renamedisc", "answered": answered, "reached": reached,
+		"what": "Trenameat a->z in /c0 while connection 1, holding the only fid on /c0/a, disconnects during the Renamed callback"})
+	if answered {
+		env.stop(5 * time.Second)
+	}
+}
